@@ -495,7 +495,10 @@ pub fn history<W: Whole>(rep: &mut Rep, k: [u8; 40], hseed: u64, max_ops: usize,
                 } else {
                     // the copy is made in place over an object that served another connection (Clone::clone_from, as
                     // Vec::clone_from, Option::clone_from and object pools do)
-                    let k2: [u8; 40] = rng.arr();
+                    // ... or an earlier state of this very connection (same session key: a snapshot being restored)
+                    let same_key = rng.chance(1, 2);
+                    let k2: [u8; 40] = if same_key { k } else { rng.arr() };
+                    rep.hist("clone_from_target", if same_key { "same_session_key" } else { "other_session_key" }, 1);
                     let src = &replicas[i];
                     let made = guard(|| {
                         let (f, _, _) = W::make(k2);
